@@ -177,6 +177,10 @@ Definition first_truthy (a b c : option layout) : option layout :=
 Definition vtt_caption (c : wcfg) (global : option layout) (cp : ncap) : result (list vtt_out) :=
   res_map (fun g => vtt_convert_positioning c (first_truthy g (nc_layout cp) global)) (vtt_groups (nc_nodes cp)).
 
+(* WebVTTWriter.write: the captions of the written language (the first one, or lang=); global_layout is that language's *)
+Definition vtt_language (c : wcfg) (lg : nlang) : result (list (list vtt_out)) :=
+  res_map (vtt_caption c (nl_layout lg)) (nl_caps lg).
+
 (* ---- DFXP write side: RegionCreator (C12) --------------------------------------------------------------- *)
 (* a <region> is created for a layout that has any of origin / extent / padding / alignment *)
 Definition has_region (l : layout) : bool :=
